@@ -78,6 +78,7 @@ var pool = []poolItem{
 	{"finst", `(make-instance 'c09-flavor)`},
 	{"class", `(find-class 'c09-class)`},
 	{"cinst", `(make-instance 'c09-class)`},
+	{"cinstnil", `(make-instance 'c09-class-nil)`}, // a class whose slot has :initform nil
 	{"cond", `(make-condition 'simple-error :format-control "x")`},
 	{"chan", `(let ((c (make-channel 1))) (channel-close c) c)`},
 	{"time", `(make-time 2020 1 2)`},
@@ -140,6 +141,9 @@ func ensureGlobals(scope *slip.Scope) {
 	}
 	if slip.FindClass("c09-class") == nil {
 		ev.MustEval(scope, `(defclass c09-class () ((a :initarg :a :initform 1)))`)
+	}
+	if slip.FindClass("c09-class-nil") == nil {
+		ev.MustEval(scope, `(defclass c09-class-nil () ((a :initarg :a :initform nil) (b :initform '())))`)
 	}
 	if slip.FindFunc("make-c09-st") == nil {
 		ev.MustEval(scope, `(defstruct c09-st a b)`)
